@@ -133,6 +133,8 @@ def run(cfg, faults=None, keep_events=True, workdir=None, kill_at=None):
             kw["file_perms"] = cfg["perms"]
         if other_dir:
             kw["part_file"] = part
+        if cfg.get("buffering") is not None:
+            kw["buffering"] = cfg["buffering"]      # 0: unbuffered (binary), 1: line-buffered (text), small: spills mid-body
         warm, extra_fds = None, []
         if cfg.get("warm_saver") and cfg["dest_present"] and cfg["overwrite"] and not cfg["part_present"]:
             # a long-lived AtomicSaver that has already completed one save of this destination (unrecorded), after which
@@ -154,9 +156,21 @@ def run(cfg, faults=None, keep_events=True, workdir=None, kill_at=None):
         # (Ctrl-C, sys.exit() in the body, a generator holding the block being closed)
         body_exc = {"KeyboardInterrupt": KeyboardInterrupt, "SystemExit": SystemExit, "GeneratorExit": GeneratorExit, "FalsyError": FalsyError}.get(
             cfg.get("raise_kind", "Exception"), BodyError)
+        class Manual:
+            """the documented non-context-manager use: setup(), write to part_file, then __exit__(None, None, None)"""
+
+            def __init__(self, sv):
+                self.sv = sv
+
+            def __enter__(self):
+                self.sv.setup()
+                return self.sv.part_file
+
+            def __exit__(self, et, ev, tb):
+                return self.sv.__exit__(et, ev, tb)
         with ip:
             try:
-                with saver as f:
+                with (Manual(saver) if cfg.get("manual_protocol") else saver) as f:
                     for i, c in enumerate(chunks):
                         if cfg["raise_at"] == i:
                             body_raised = True
